@@ -195,6 +195,35 @@ pub fn run(run: &RunInfo) -> Summary {
         });
         acc.merge(sub);
     }
+    // the acknowledgement of a command is a reply like any other: through write_packet_with_ack every
+    // control field (empty body and a one-byte body) must be accepted exactly when the Ack parser accepts it
+    {
+        let ack = ens.iter().find(|e| e.key == "Ack").unwrap();
+        let sub = par_for(256, |class, acc| {
+            for instr in 0..=255u8 {
+                for body in [&[][..], &[0x6c][..]] {
+                    let reply = frame(class as u8, instr, body);
+                    let want = (ack.parse)(&reply).is_ok();
+                    acc.count("cases", 1);
+                    acc.count("calls", 1);
+                    match guarded(|| command_acknowledged_by(&reply)) {
+                        Ok((Some(got), used)) if got == want && used == reply.len() => {
+                            acc.count(if want { "ack_accepted" } else { "ack_rejected" }, 1);
+                        }
+                        other => acc.violation(viol(
+                            format!("c15/Ack/acknowledgement/{class:02x}{instr:02x}/{}", hex(body)),
+                            format!("write_packet_with_ack with the reply {}: expected {} (what the Ack parser says about this packet) and {} bytes consumed, got {other:?}", hex(&reply), if want { "success" } else { "an error" }, reply.len()),
+                            reply.len() as u64,
+                        )),
+                    }
+                }
+            }
+        });
+        acc.merge(sub);
+    }
+    if acc.get("ack_accepted") > 0 && acc.get("ack_rejected") > 0 {
+        acc.witness("acknowledgements of commands were accepted and foreign packets in their place rejected");
+    }
     if acc.get("transport_split_agreed") > 0 && acc.get("transport_extended_agreed") > 0 {
         acc.witness("replies read through the transport with split reads and extended lengths were dispatched by their own control field");
     }
@@ -216,9 +245,9 @@ pub fn run(run: &RunInfo) -> Summary {
         transitions: acc.get("calls"),
         traces_validated: acc.get("variant_agreed") + acc.get("variant_error_agreed"),
         distinct_nontrivial: acc.get("variant_agreed") + acc.get("variant_error_agreed"),
-        rule: format!("17 reply enums x all 65,536 (class, instr) pairs x {} bodies (empty, baseline / all-present / 253..258-byte and >1000-byte bodies of every shipped command); all 256 one-byte bodies for the listed control fields and their one-byte neighbours; all inputs of length 0 and 1; through PacketTransport::read_packet: for every variant of every enum every body of its packet type followed by a second packet (inside / outside the reply set), every placement of one short read or pending poll (1 byte, half, all but one, pending). distinct_nontrivial = cases with a listed control field in which the parser agreed with the packet type's own decoder", bods.len()),
+        rule: format!("17 reply enums x all 65,536 (class, instr) pairs x {} bodies (empty, baseline / all-present / 253..258-byte and >1000-byte bodies of every shipped command); all 256 one-byte bodies for the listed control fields and their one-byte neighbours; all inputs of length 0 and 1; through PacketTransport::read_packet: for every variant of every enum every body of its packet type followed by a second packet (inside / outside the reply set), every placement of one short read or pending poll (1 byte, half, all but one, pending); all 65,536 control fields x 2 bodies in the place of a command's acknowledgement through write_packet_with_ack. distinct_nontrivial = cases with a listed control field in which the parser agreed with the packet type's own decoder", bods.len()),
         exhaustive: true,
-        required_witnesses: vec!["every variant of every reply enum was returned for its own control field".into(), "foreign control fields rejected".into(), "replies read through the transport with split reads and extended lengths were dispatched by their own control field".into()],
+        required_witnesses: vec!["every variant of every reply enum was returned for its own control field".into(), "foreign control fields rejected".into(), "replies read through the transport with split reads and extended lengths were dispatched by their own control field".into(), "acknowledgements of commands were accepted and foreign packets in their place rejected".into()],
         assumptions: vec!["reply table = DESIGN.md Appendix B (hand written)".into(), "bodies from a finite alphabet".into()],
         bounds: json!({"control_fields": "all 65536 per enum", "bodies": bods.len()}),
         caps_hit: vec![],
